@@ -2813,6 +2813,7 @@ event_add_nolock_(struct event *ev, const struct timeval *tv,
 				if (ev->ev_ncalls && ev->ev_pncalls) {
 					/* Abort loop */
 					*ev->ev_pncalls = 0;
+					ev->ev_pncalls = NULL;
 				}
 			}
 
@@ -2952,6 +2953,7 @@ event_del_nolock_(struct event *ev, int blocking)
 		if (ev->ev_ncalls && ev->ev_pncalls) {
 			/* Abort loop */
 			*ev->ev_pncalls = 0;
+			ev->ev_pncalls = NULL;
 		}
 	}
 
